@@ -230,7 +230,9 @@ class Gen:
         rmax = r.choice([[], [], [0, 1], [100000000, 1]])
         if hp and r.random() < 0.6:
             rmax = [max(0, r.choice(hp) + r.choice([-50, 50, -5000, 5000])), 1]
-        c = mk("loc", lon=lon, lat=lat, p={"bbox": bbox, "rmax": rmax})
+        c = mk("loc", lon=lon, lat=lat, p={"bbox": bbox, "rmax": rmax, "shapes": "same"})
+        if n >= 2 and r.random() < 0.04:
+            c["p"]["shapes"] = "differ"      # same number of elements, different shapes: rejected
         if r.random() < 0.04:
             c["lat"] = c["lat"][:-1] if n else [0]
             c["hop"] = hops(c["lon"], c["lat"])
